@@ -62,6 +62,16 @@ def native_obs_from(value_dict):
     from pyvc.native import repo_module
     pe = repo_module("pyerrors.obs")
     names = sorted(value_dict["chains"])
+    ensembles = sorted(set(n.split("|")[0] for n in names))
+    if len(ensembles) > 1:
+        # an Obs is constructed on one ensemble; several ensembles arise by arithmetic: add the per-ensemble parts
+        o = None
+        for m in ensembles:
+            part = native_obs_from({"chains": {n: value_dict["chains"][n] for n in names if n.split("|")[0] == m}})
+            o = part if o is None else o + part
+        if value_dict.get("reweighted"):
+            o.reweighted = True
+        return o
     o = pe.Obs([np.asarray(value_dict["chains"][n][1], dtype=float) for n in names], names, idl=[value_dict["chains"][n][0] for n in names])
     if value_dict.get("reweighted"):
         o.reweighted = True
